@@ -33,10 +33,12 @@ class TagProba(BaseEstimator):
 
     column 0 of X must be the row id, column 1 the informative integer feature."""
 
-    def __init__(self, sign=1, run=0, tagged=True):
+    def __init__(self, sign=1, run=0, tagged=True, order=False):
         self.sign = sign
         self.run = run
         self.tagged = tagged   # tags are numbered in order of first fit, i.e. they depend on thread scheduling
+        self.order = order     # make the output depend on the ORDER of the rows handed to fit (a sharp probe
+                               # for anything that changes the training row order)
 
     def fit(self, X, y):
         with _lock:
@@ -45,13 +47,16 @@ class TagProba(BaseEstimator):
                 RUNS[self.run]["next"] += 1
                 self.n_fit_ = 0
             self.n_fit_ += 1
+            if self.order:
+                import zlib
+                self.h_ = zlib.crc32(np.ascontiguousarray(X[:, 0].astype(np.int64)).tobytes()) % 8
             RUNS[self.run]["log"].append(("fit", self.tag_, X[:, 0].astype(np.int64).tolist(), np.asarray(y).tolist()))
         return self
 
     def _score(self, X):
         with _lock:
             RUNS[self.run]["log"].append(("score", self.tag_, X[:, 0].astype(np.int64).tolist(), None))
-        return self.sign * X[:, 1] * TAGMOD + (self.tag_ if self.tagged else 0)
+        return self.sign * X[:, 1] * TAGMOD + (self.tag_ if self.tagged else 0) + (getattr(self, 'h_', 0) if self.order else 0)
 
     def predict_proba(self, X):
         return self._score(X)
